@@ -373,10 +373,12 @@ func c20Params(p *core.Prog, r *core.Run, pub *ssa.Function) {
 	if arg.Op == "call" && arg.Name == "append" {
 		c := jn.Instr.Common().Args[0].(*ssa.Call)
 		args := variadicArgs(p, c.Call.Args[1])
-		if len(args) == 1 && args[0].Op == "call" && args[0].Name == "fmt.Sprintf" && args[0].Args[0].Name == `"ech=\"%s\""` {
-			sc := args[0].Val.(*ssa.Call)
-			va := variadicArgs(p, sc.Call.Args[1])
-			okNew = len(va) == 1 && va[0].Op == "call" && va[0].Name == "(*encoding/base64.Encoding).EncodeToString" && va[0].Args[0].Name == "encoding/base64.StdEncoding" && va[0].Args[1].Op == "param" && va[0].Args[1].Name == "p3" && c.Call.Args[0] == ssa.Value(newParams)
+		if len(args) == 1 {
+			// ech="<value>" whether formatted or concatenated
+			if parts, ok := stringParts(p, args[0]); ok && len(parts) == 3 && parts[0].Lit == `ech="` && parts[2].Lit == `"` && parts[1].Val != nil && parts[1].Verb == "s" {
+				v := parts[1].Val
+				okNew = v.Op == "call" && v.Name == "(*encoding/base64.Encoding).EncodeToString" && v.Args[0].Name == "encoding/base64.StdEncoding" && v.Args[1].Op == "param" && v.Args[1].Name == "p3" && c.Call.Args[0] == ssa.Value(newParams)
+			}
 		}
 	}
 	r.Check("C20.PARAM", "new-ech", okNew, p.InstrPos(jn.Instr), "the written value is the kept parameters plus exactly one ech=\"<StdEncoding base64 of the given config list>\"")
